@@ -138,25 +138,38 @@ FIXTURE_DETAILS = {"f_ok": ["fxd"], "f_tb": ["traceback"], "f_two": ["traceback"
 
 
 class SynthMismatch(Mismatch):
-    def __init__(self, m):
+    def __init__(self, m, env=None):
         self.m = m
+        self.env = env
 
     def describe(self):
         return "fe:%s synthetic mismatch" % self.m
 
     def get_details(self):
-        return {b: fixed_content("mm:%s:%s" % (self.m, b)) for b in MISMATCH_DETAILS[self.m]}
+        # like every detail, the bytes are those read when the outcome is reported (a growing log, say): the
+        # content says when it was read
+        env = self.env
+
+        def lazy(cid):
+            if env is None:
+                return fixed_content(cid)
+            return ttcontent.Content(
+                ContentType("text", "plain", {"charset": "utf8"}), lambda: [cid.encode("utf8"), b"|epoch=%d" % env.epoch]
+            )
+
+        return {b: lazy("mm:%s:%s" % (self.m, b)) for b in MISMATCH_DETAILS[self.m]}
 
 
 class SynthMatcher:
-    def __init__(self, m):
+    def __init__(self, m, env=None):
         self.m = m
+        self.env = env
 
     def __str__(self):
         return "SynthMatcher(%s)" % self.m
 
     def match(self, other):
-        return SynthMismatch(self.m)
+        return SynthMismatch(self.m, self.env)
 
 
 class ChildFixture(fixtures.Fixture):
@@ -302,6 +315,10 @@ def _custom2_handler(case, result, exc):  # pragma: no cover - must never be rea
     result.addSuccess(case, details=case.getDetails())
 
 
+# what a unit that returns normally hands back: truthy and falsy values alike
+RETURNED = ("a value", None, 0, ["x"], False, object())
+
+
 class SynthBase(testtools.TestCase):
     """Interpreter of unit scripts."""
 
@@ -333,10 +350,10 @@ class SynthBase(testtools.TestCase):
         return self.env.default_result
 
     def setUp(self):
-        self._exec("setUp")
+        return self._exec("setUp")
 
     def tearDown(self):
-        self._exec("tearDown")
+        return self._exec("tearDown")
 
     def _body(self):
         if not self.env.prog.get("xfdec"):
@@ -385,18 +402,19 @@ class SynthBase(testtools.TestCase):
                 else:
                     self.addDetail(name_str(a, b), lazy_content(env, "user:%s-%d" % (a, b)))
             elif op == "expect":
-                self.expectThat("valueé", SynthMatcher(a))
+                self.expectThat("valueé", SynthMatcher(a, env))
             elif op == "patch":
                 self.patch(env.obj, a, "patched")
             elif op == "useFixture":
                 self.useFixture(SynthFixture(env, a))
             elif op == "ret":
                 upcall()
-                return
+                # user code may return anything (`return self.resource`, dict.pop as a cleanup): a value is not a verdict
+                return RETURNED[(len(env.ran) + sum(len(sc) for sc in env.prog["script"].values())) % len(RETURNED)]
             elif op == "retnoup":
                 # the framework's ValueError
                 env.note_framework("TestCase.%s was not called" % unit, unit, env.nxt(unit))
-                return
+                return RETURNED[(len(env.ran) + sum(len(sc) for sc in env.prog["script"].values())) % len(RETURNED)]
             elif op == "failfixture":
                 self.useFixture(ClassicFixture(env, a) if a == "f_classic" else SynthFixture(env, a))
                 env.anomalies.append("failfixture did not raise in %s" % unit)
@@ -438,7 +456,7 @@ class SynthBase(testtools.TestCase):
 
 class SynthPlain(SynthBase):
     def test_body(self):
-        self._body()
+        return self._body()
 
 
 class SynthRunTestWith(SynthBase):
@@ -446,7 +464,7 @@ class SynthRunTestWith(SynthBase):
 
     @testtools.run_test_with(testtools.RunTest)
     def test_body(self):
-        self._body()
+        return self._body()
 
 
 def _async_factory(case, handlers=None, last_resort=None):
@@ -472,13 +490,13 @@ class SynthAsync(SynthBase):
 
     @testtools.run_test_with(_async_factory)
     def test_body(self):
-        self._body()
+        return self._body()
 
 
 class SynthSyncD(SynthBase):
     @testtools.run_test_with(_syncd_factory)
     def test_body(self):
-        self._body()
+        return self._body()
 
 
 RUNNER_CLASSES = {"async": SynthAsync, "syncd": SynthSyncD}
@@ -489,13 +507,13 @@ class SynthExpectedFailure(SynthBase):
 
     @unittest.expectedFailure
     def test_body(self):
-        self._body()
+        return self._body()
 
 
 class SynthSkipped(SynthBase):
     @testtools.skip("decorated-skip")
     def test_body(self):
-        self._body()
+        return self._body()
 
 
 class SynthSkippedEmpty(SynthBase):
@@ -503,7 +521,7 @@ class SynthSkippedEmpty(SynthBase):
 
     @testtools.skip("")
     def test_body(self):
-        self._body()
+        return self._body()
 
 
 # ---------------------------------------------------------------------------------------------
